@@ -338,6 +338,67 @@ func busQueueLengths() {
 // header the application supplies (raw sockets), strip the number of bytes the pattern puts in
 // front of the body on the wire.
 func QueueLengths(name string, c func() (mangos.Socket, error), hdr []byte, strip int) {
+	if kit.ChooseFree(2) == 1 {
+		queueZero(name, c, hdr, strip)
+		return
+	}
+	queueLengths(name, c, hdr, strip)
+}
+
+// queueZero: the per-connection send queue has length 0 (an accepted value: no buffering, a message
+// is handed to a connection's sender directly).  Two or three peers are connected and idle - each
+// has taken everything it was given - so "queue space permitting" is satisfied for every one of
+// them: each message reaches every peer, in order.
+func queueZero(name string, c func() (mangos.Socket, error), hdr []byte, strip int) {
+	np := 2 + kit.ChooseFree(2)
+	s, err := c()
+	must(err, "NewSocket")
+	if err := s.SetOption(mangos.OptionWriteQLen, 0); err != nil {
+		if err == mangos.ErrBadValue {
+			kit.Observe("%s refuses WriteQLen 0", name)
+			return
+		}
+		must(err, "WriteQLen 0")
+	}
+	ep := vt.Get("c08q")
+	must(s.Listen("vt://c08q"), "Listen")
+	var pipes []*vt.Pipe
+	for i := 0; i < np; i++ {
+		pipes = append(pipes, ep.Connect())
+		kit.Quiesce()
+	}
+	want := []string{"z0", "z1", "z2"}
+	for _, body := range want {
+		cl := kit.Start("Send", func() (interface{}, error) {
+			if hdr == nil {
+				return nil, kit.SendBytes(s, []byte(body))
+			}
+			m := mangos.NewMessage(8)
+			m.Header = append(m.Header, hdr...)
+			m.Body = append(m.Body, body...)
+			return nil, s.SendMsg(m)
+		})
+		kit.Quiesce()
+		if !cl.Done() || cl.Err != nil {
+			kit.Failf("send-stuck", "%s, WriteQLen 0: Send(%s) with %d idle peers: done=%v %s", name, body, np, cl.Done(), kit.ErrName(cl.Err))
+		}
+	}
+	for pi, p := range pipes {
+		var got []string
+		for _, sm := range p.SentLog() {
+			got = append(got, string(sm.Data[strip:]))
+		}
+		if fmt.Sprint(got) != fmt.Sprint(want) {
+			kit.Failf("idle-peer-skipped-with-queue-length-0", "%s, WriteQLen 0: 3 messages sent one after the other to %d connected, idle peers; peer %d was given %q, want all three", name, np, pi, got)
+		}
+	}
+	kit.Count("unbuffered-queue-every-idle-peer-served")
+	kit.Count("slow-peer-given-all-queued")
+	kit.Observe("%s zero %d", name, np)
+	kit.Must("Close", func() { _ = s.Close() })
+}
+
+func queueLengths(name string, c func() (mangos.Socket, error), hdr []byte, strip int) {
 	slowFirst := kit.ChooseFree(2) == 1
 	s, err := c()
 	must(err, "NewSocket")
